@@ -176,14 +176,14 @@ def run(ctx):
     ctx.correspondence("interrupted-file-vs-model")
     ctx.correspondence("already-present-decision-vs-model")
     terms, info = [], []
-    nfiles = ctx.n(24, 160)
+    nfiles = ctx.n(16, 160)
     old_chunk = offloaded.CHKCiphertextFetcher.CHUNK_SIZE
     try:
         with G.Grid(num_clients=1, num_servers=5, k=2, n=4, happy=1, max_segment_size=128, seed=ctx.seed) as g, \
                 G.Grid(num_clients=1, num_servers=5, k=2, n=4, happy=1, max_segment_size=128, seed=ctx.seed + 1) as g2:
             rig, twin = Rig(g), Rig(g2)
             for fi in range(nfiles):
-                if ctx.tier == "quick" and not ctx.search and ctx.elapsed() > 100:
+                if ctx.tier == "quick" and not ctx.search and ctx.elapsed() > 35:
                     break
                 one_file(ctx, rig, twin, fi, terms, info)
             for e in g.logged_errors + g2.logged_errors:
